@@ -230,3 +230,71 @@ Fixpoint mismatches_from (i : nat) (cs : list scase) : list nat :=
   | c :: t => if check_case c then mismatches_from (S i) t else i :: mismatches_from (S i) t
   end.
 Definition stake_mismatches (cs : list scase) : list nat := mismatches_from 0 cs.
+
+(** * the read-only method [delegation] and the native Query/Delegation
+
+    keeper/grpc_query.go Delegation + DelegationToDelegationResponse: NotFound when there is no
+    delegation record; otherwise the delegation's shares and
+    [NewCoin(bondDenom, validator.TokensFromShares(shares).TruncateInt())] (an Internal error when the
+    validator record is missing).  The truncation rule: the reported balance is what the shares are
+    worth in WHOLE tokens, rounded down - the amount [Undelegate] can actually take out.
+    (TokensFromShares divides by the validator's shares: a delegation record implies positive shares.)
+
+    precompiles/staking/query.go Delegation: calls that query server; NotFound becomes the answer
+    (0, 0 bondDenom); DelegationOutput.FromResponse copies shares and balance. *)
+Definition delegation_balance (v : validator) (sh : Z) : Z := truncate (tokens_from_shares v sh).
+
+Inductive qres := QNotFound | QError | QOk (shares balance : Z).
+
+Definition native_delegation_query (ov : option validator) (od : option Z) : qres :=
+  match od with
+  | None => QNotFound
+  | Some sh => match ov with
+               | None => QError
+               | Some v => QOk sh (delegation_balance v sh)
+               end
+  end.
+
+(** None: the call fails; Some (shares, balance) *)
+Definition precompile_delegation_query (ov : option validator) (od : option Z) : option (Z * Z) :=
+  match native_delegation_query ov od with
+  | QNotFound => Some (0, 0)
+  | QError => None
+  | QOk sh b => Some (sh, b)
+  end.
+
+(** the variant studied in Props/C16.v: the balance rounded to the NEAREST integer (RoundInt) *)
+Definition delegation_balance_rounded (v : validator) (sh : Z) : Z := round_int (tokens_from_shares v sh).
+
+(** comparison with the implementation: one [delegation] question = the validator record, the
+    delegation's shares, what the precompile answered (None: failed), what Query/Delegation answered *)
+Definition dq := (option validator * option Z * option (Z * Z) * qres)%type.
+
+Definition ozz_eqb (a b : option (Z * Z)) : bool :=
+  match a, b with
+  | Some (x1, y1), Some (x2, y2) => (x1 =? x2) && (y1 =? y2)
+  | None, None => true
+  | _, _ => false
+  end.
+
+Definition qres_eqb (a b : qres) : bool :=
+  match a, b with
+  | QNotFound, QNotFound => true
+  | QError, QError => true
+  | QOk s1 b1, QOk s2 b2 => (s1 =? s2) && (b1 =? b2)
+  | _, _ => false
+  end.
+
+Definition check_dq (q : dq) : bool :=
+  let '(ov, od, pre, nat) := q in
+  ozz_eqb (precompile_delegation_query ov od) pre && qres_eqb (native_delegation_query ov od) nat.
+
+(** a case of the stakequery driver: every [delegation] question asked in one state *)
+Definition qcase := list dq.
+
+Fixpoint qmismatches_from (i : nat) (cs : list qcase) : list nat :=
+  match cs with
+  | [] => []
+  | c :: t => if forallb check_dq c then qmismatches_from (S i) t else i :: qmismatches_from (S i) t
+  end.
+Definition query_mismatches (cs : list qcase) : list nat := qmismatches_from 0 cs.
